@@ -7,6 +7,7 @@
 #include <ImathInterval.h>
 #include <ImathMatrix.h>
 #include <ImathVec.h>
+#include <half.h>
 #include <algorithm>
 #include <array>
 #include <type_traits>
@@ -37,9 +38,28 @@ template <> struct TName<int> { static const char* n () { return "int"; } };
 template <> struct TName<int64_t> { static const char* n () { return "int64"; } };
 template <> struct TName<float> { static const char* n () { return "float"; } };
 template <> struct TName<double> { static const char* n () { return "double"; } };
+template <> struct TName<half> { static const char* n () { return "half"; } };
+
+// element type `half` is a class: "scalar" (Interval's point type) = arithmetic or half
+template <class V> struct is_half : std::is_same<V, half> {};
+template <class V> struct is_scalar_elem : std::integral_constant<bool, std::is_arithmetic<V>::value || is_half<V>::value> {};
+
+// the ends of the element type's range. For half they are written out as bit patterns (65504 / -65504) instead of
+// being read from std::numeric_limits<half>, so that the harness does not inherit a wrong lowest()/max() from
+// the header under test (makeEmpty / makeInfinite / isInfinite of Box2h, Box3h, Interval<half> depend on them).
+template <class T> struct ElemLimits
+{
+    static T max () { return std::numeric_limits<T>::max (); }
+    static T lowest () { return std::numeric_limits<T>::lowest (); }
+};
+template <> struct ElemLimits<half>
+{
+    static half max () { return half (half::FromBits, 0x7bff); }
+    static half lowest () { return half (half::FromBits, 0xfbff); }
+};
 
 // ---- shape traits: V is the "point" type (scalar for Interval) -------------------------------------
-template <class V, bool Scalar = std::is_arithmetic<V>::value> struct Shape;
+template <class V, bool Scalar = is_scalar_elem<V>::value> struct Shape;
 template <class V> struct Shape<V, true>
 {
     typedef V           T;
@@ -48,7 +68,8 @@ template <class V> struct Shape<V, true>
     static T&       at (V& v, int) { return v; }
     static const T& at (const V& v, int) { return v; }
     static std::string name () { return std::string ("Interval<") + TName<T>::n () + ">"; }
-    static const char* kind () { return "Interval"; }
+    // site prefix: names the template copy; element type half (a class type with its own conversions) gets its own sites
+    static std::string kind () { return is_half<V>::value ? "Interval[half]" : "Interval"; }
 };
 template <class V> struct Shape<V, false>
 {
@@ -68,21 +89,24 @@ template <class V> struct Shape<V, false>
                (g ? "[generic template]" : (D == 4 ? "[generic template]" : "[specialisation]"));
     }
     // site prefix: names the template copy, not the element type
-    static const char* kind ()
+    static std::string kind ()
     {
         const bool g = std::is_same<V, G2<T>>::value || std::is_same<V, G3<T>>::value;
-        return D == 2 ? (g ? "Box<generic-2D>" : "Box<Vec2>") : D == 3 ? (g ? "Box<generic-3D>" : "Box<Vec3>") : "Box<Vec4>";
+        const char* k = D == 2 ? (g ? "Box<generic-2D>" : "Box<Vec2>") : D == 3 ? (g ? "Box<generic-3D>" : "Box<Vec3>") : "Box<Vec4>";
+        return is_half<T>::value ? std::string (k) + "[half]" : std::string (k);
     }
 };
 
+template <class T> inline std::string fmt_elem (T v) { return vf::fmt (v); }
+inline std::string fmt_elem (half v) { char b[32]; snprintf (b, sizeof b, "[half 0x%04x]", (unsigned) v.bits ()); return vf::fmt ((float) v) + b; }
 // small-integer-valued coordinates print as integers, everything else exactly (hexfloat + bits)
 template <class T> inline std::string cs (T v)
 {
     long double x = (long double) v;
     if (x == (long double) (long long) x && fabsl (x) < 1e6L) return std::to_string ((long long) x);
-    if (v == std::numeric_limits<T>::max ()) return "MAX";
-    if (v == std::numeric_limits<T>::lowest ()) return "LOWEST";
-    return vf::fmt (v);
+    if (v == ElemLimits<T>::max ()) return "MAX";
+    if (v == ElemLimits<T>::lowest ()) return "LOWEST";
+    return fmt_elem (v);
 }
 template <class V> inline std::string vstr (const V& v)
 {
@@ -121,8 +145,8 @@ template <class V> inline bool canonical_empty (const typename Shape<V>::Box& b)
 {
     typedef Shape<V> S;
     for (int i = 0; i < S::D; ++i)
-        if (S::at (b.min, i) != std::numeric_limits<typename S::T>::max () ||
-            S::at (b.max, i) != std::numeric_limits<typename S::T>::lowest ())
+        if (S::at (b.min, i) != ElemLimits<typename S::T>::max () ||
+            S::at (b.max, i) != ElemLimits<typename S::T>::lowest ())
             return false;
     return true;
 }
@@ -166,6 +190,8 @@ inline void flush_failures ()
 template <class T> bool run_sets (bool thorough);      // c13_sets.hpp
 template <class T> bool run_histories (bool thorough); // c13_hist.hpp
 template <class T> bool run_closest (bool thorough);   // c13_closest.hpp
-bool run_transforms (bool thorough);                   // c13_xform.cpp
+template <class T> bool run_extremes (bool thorough);  // c13_extreme.hpp
+bool run_transforms (bool thorough);                   // c13_xform.cpp (float/double boxes)
+bool run_transforms_int (bool thorough);               // c13_xform_int.cpp (Box3i / Box3s)
 
 } // namespace c13
